@@ -26,7 +26,8 @@ ELEMENTWISE = {"add", "sub", "mul", "div", "add_mut", "sub_mut", "mul_mut", "div
 
 
 FLOAT_OPS = {"column_mean", "mean", "var", "std", "cov", "div", "div_mut", "div_scalar", "div_scalar_mut", "scale_mut",
-             "softmax_mut", "v_mean", "v_var", "v_std", "v_div", "v_div_mut", "v_div_scalar", "v_div_scalar_mut"}
+             "softmax_mut", "v_mean", "v_var", "v_std", "v_div", "v_div_mut", "v_div_scalar", "v_div_scalar_mut",
+             "norm_half", "v_norm_half"}
 
 
 def shape(X):
@@ -92,7 +93,7 @@ def run(ctx):
     #     exhibit the inputs on which they do not (the ADT state machine itself is model-checked by C03)
     ctx.tlc_mc("linalg/MatrixADTLayout.tla", "linalg/MatrixADTLayout_%s.cfg" % ctx.tier, timeout=1500,
                must_cover=("WitnessNdFlatten", "WitnessNdReshape", "WitnessNaFlatten", "WitnessNaMax", "WitnessNaMin",
-                           "WitnessNdDotColumn", "WitnessNdDotLength"))
+                           "WitnessNdDotColumn", "WitnessNdDotLength", "WitnessEqBufferOnly"))
     fev = ctx.path("c20-events.ndjson")
     fag = ctx.path("c20-agree.ndjson")
     ctx.harness("gen-prog", fev, fag)
